@@ -114,3 +114,27 @@ func VerifH_C02_VariantArray() {
 	k, err := v.Decode(in)
 	vfC02Check(k, err, in)
 }
+
+// Array dimensions whose product overflows: three dimensions from a set of boundary values,
+// the fourth symbolic (any int32), array length 0 or 1. Decoding must end (the loop bound of
+// the executor reports a candidate hang, which the native replay confirms by its time limit),
+// without panic and within the allocation budget.
+func VerifH_C02_VariantDims() {
+	cand := []uint32{1, 2, 9, 0x10000, 0x38E38E39, 0x7fffffff}
+	l := vfConcrete(vfInt("arrayLength", 0, 1))
+	in := []byte{byte(TypeIDInt32) | VariantArrayValues | VariantArrayDimensions}
+	put := func(v uint32) { in = append(in, byte(v), byte(v>>8), byte(v>>16), byte(v>>24)) }
+	put(uint32(l))
+	for i := 0; i < l; i++ {
+		in = append(in, vfBytes("element", 4)...)
+	}
+	put(4)
+	for i := 0; i < 3; i++ {
+		put(cand[vfConcrete(vfInt("dim", 0, len(cand)-1))])
+	}
+	in = append(in, vfBytes("lastDim", 4)...)
+	vfAllocBudget(256*len(in) + 4<<20)
+	v := new(Variant)
+	k, err := v.Decode(in)
+	vfC02Check(k, err, in)
+}
